@@ -23,7 +23,7 @@ MORE_CLASSES = ["NeighCell", "NeighImage", "PolyLine2D"]
 
 
 # recursive operators over files of ~100 tokens need a deeper Java stack than the default
-TLC_JAVA = "-Xmx8g -XX:+UseParallelGC -Xss256m"
+TLC_JAVA = "-Xmx8g -XX:+UseParallelGC -Xss64m"
 
 
 def classes_cfg(level, classes):
